@@ -12,7 +12,7 @@ tvars == <<vars, tid, l, verdict, dpc>>
 Ev == Traces[tid].events
 
 TInit == /\ tid \in 1..NTraces /\ l = 1 /\ verdict = "ok" /\ dpc = 1
-         /\ InitWithAs(Traces[tid].init.cfg, Traces[tid].init.starter)
+         /\ InitFull(Traces[tid].init.cfg, Traces[tid].init.starter, Traces[tid].init.startdir)
 
 Known == {"lookupuser", "lookupgroup", "loadtls", "bind", "chroot", "chdir", "cfgroot", "setgroups", "setgid", "setuid", "serve", "abort"}
 
